@@ -255,6 +255,23 @@ func c19StoreRoutes(outer interface{}, level int, isList bool) (msg, sig string)
 				return at.NewList(0, 1).MapAsync(func(int, interface{}) interface{} { return v }).Get(1)
 			},
 		}
+		// slots that already hold a DIFFERENT container of equal content (seeded change C19-10a: a write is
+		// skipped when the new value "equals" the old one, so the derived value is silently not stored)
+		equalPlain := func() interface{} {
+			if isList {
+				return outer.(at.List).Clone()
+			}
+			return outer.(at.Object).Clone()
+		}
+		stores["Replace over an equal container"] = func() interface{} { return at.NewList(1, equalPlain()).Replace(1, v).Get(1) }
+		stores["Set over an equal container"] = func() interface{} { return at.NewObject("k", equalPlain()).Set("k", v).Get("k") }
+		stores["List.SetTF leaf over an equal container"] = func() interface{} { return at.NewList(equalPlain()).SetTF("#0", v).Get(0) }
+		stores["Object.SetTF over an equal container"] = func() interface{} {
+			return at.NewObject("a", at.NewObject("k", equalPlain())).SetTF(".a.k", v).GetTF(".a.k")
+		}
+		stores["List.SetTF nested over an equal container"] = func() interface{} {
+			return at.NewList(at.NewObject("k", at.NewList(0, equalPlain()))).SetTF("#0.k#1", v).GetTF("#0.k#1")
+		}
 		if isList {
 			stores["NewListFrom([]List)"] = func() interface{} { return at.NewListFrom([]at.List{v.(at.List), v.(at.List)}).Get(1) }
 			stores["NewObjectFrom(map List)"] = func() interface{} { return at.NewObjectFrom(map[string]at.List{"k": v.(at.List)}).Get("k") }
@@ -433,7 +450,7 @@ func runC19(c *ev.Ctx) {
 	sort.Strings(fluentSeen)
 	c.Set("fluent_methods_found_by_reflection", fluentSeen)
 	c.Set("methods_returning_the_container_type_not_classified", unclassified)
-	c.Rule(fmt.Sprintf("user types DL{List}, DDL{*DL}, DO{Object}, DDO{*DO} registered with Init; explicit-state BFS over chains of <= %d fluent calls out of %d list variants / %d object variants (every code path of each fluent method: Insert front/middle/end, Delete with 0/1/2 indices, SetTF leaf/dot/hash x pad/reuse/replace, UnsetTF x3, all ForEach variants incl. ForEachAsync) from 6 start contents per type and embedding level; every call must return the registered outer value (interface identity, so returning the embedded container is detected) and Ego() must be it. States merged by (type, level, content). Retrieval: the derived value stored in a plain List/Object and in another derived value is stored - as the outer value, as each inner embedding level and as its embedded container - through 18 storing entry points (constructors, NewListOf at every position, Add/Insert/Replace/Set, tree-form writes, Map/MapAsync results): it must come back as the registered outer value and its own Ego()/fluent answers must survive the store; then it must come back identical through 28 routes (Get, typed getters, GetTF, ForEach*, typed slices, Slice, Dict, Values, Filter*, Map*, SubList, Concat, Merge, Pluck, Reduce).", depth, len(lops), len(oops)))
+	c.Rule(fmt.Sprintf("user types DL{List}, DDL{*DL}, DO{Object}, DDO{*DO} registered with Init; explicit-state BFS over chains of <= %d fluent calls out of %d list variants / %d object variants (every code path of each fluent method: Insert front/middle/end, Delete with 0/1/2 indices, SetTF leaf/dot/hash x pad/reuse/replace, UnsetTF x3, all ForEach variants incl. ForEachAsync) from 6 start contents per type and embedding level; every call must return the registered outer value (interface identity, so returning the embedded container is detected) and Ego() must be it. States merged by (type, level, content). Retrieval: the derived value stored in a plain List/Object and in another derived value is stored - as the outer value, as each inner embedding level and as its embedded container - through 23 storing entry points (constructors, NewListOf at every position, Add/Insert/Replace/Set, tree-form writes - the overwriting ones also over a slot that holds a different container of equal content -, Map/MapAsync results): it must come back as the registered outer value and its own Ego()/fluent answers must survive the store; then it must come back identical through 28 routes (Get, typed getters, GetTF, ForEach*, typed slices, Slice, Dict, Values, Filter*, Map*, SubList, Concat, Merge, Pluck, Reduce).", depth, len(lops), len(oops)))
 	c.Assume("fluent methods are those the statement lists; the interface is scanned by reflection and any other method returning the container type is reported as unclassified")
 
 	type op struct{ I int }
